@@ -38,39 +38,40 @@ def geoAccept (c : GeoCfg) (A : Adj) (s t k l : Nat) : Bool :=
   (s != k && s != l && t != k && t != l) && (!A s l && !A t k) &&
     condDeg c s t k l && condLen c s t k l
 
-/-- the eight array writes, in program order, closed form -/
-def rewire (A : Adj) (s t k l : Nat) : Adj :=
-  (((((((A.set s t false).set t s false).set k l false).set l k false).set s l true).set
-    l s true).set t k true).set k t true
+/-- the adjacency after the array writes of an accepted rewiring (the generated list, executed
+in program order); its entries are characterised by `rewire_apply` (Lemmas/Random.lean) under
+the conditions the `if` guarantees, so a reordering of the writes that is harmless under these
+conditions does not disturb the proofs -/
+def rewire (A : Adj) (s t k l : Nat) : Adj := applyWrites A (geoWrites s t k l)
+
+/-- the cross adjacency after the writes of an accepted swap (generated list, program order) -/
+def swapped (C : Adj) (a b c e : Nat) : Adj := applyWrites C (rewWrites a b c e)
 
 theorem natAbs_lt_iff (x eps : Int) : ((x.natAbs : Int) < eps) ↔ (x < eps ∧ -x < eps) := by omega
 
 theorem near_eq (D : Nat → Nat → Int) (eps : Int) (a b c d : Nat) :
     decide ((((D a b) - (D c d)).natAbs : Int) < eps) = near D eps a b c d := by
   rw [Bool.eq_iff_iff]
-  simp only [near, Bool.and_eq_true, decide_eq_true_eq, natAbs_lt_iff]
-  omega
+  simp only [near, Bool.and_eq_true, decide_eq_true_eq, natAbs_lt_iff] <;> omega
 
 /-- **`cond_len_c1` of the source is condition C1** -/
 theorem condLenC1_eq (D : Nat → Nat → Int) (eps : Int) (s t k l : Nat) :
     condLenC1 D eps s t k l = condC1 D eps s t k l := by
   rw [Bool.eq_iff_iff]
   simp only [condLenC1, condC1, near, Bool.and_eq_true, Bool.or_eq_true, decide_eq_true_eq,
-    natAbs_lt_iff]
-  omega
+    natAbs_lt_iff] <;> omega
 
 /-- **`cond_len_c2` of the source is condition C2** (each node's old and new link in that node's row) -/
 theorem condLenC2_eq (D : Nat → Nat → Int) (eps : Int) (s t k l : Nat) :
     condLenC2 D eps s t k l = condC2 D eps s t k l := by
   rw [Bool.eq_iff_iff]
-  simp only [condLenC2, condC2, near, Bool.and_eq_true, decide_eq_true_eq, natAbs_lt_iff]
-  omega
+  simp only [condLenC2, condC2, near, Bool.and_eq_true, decide_eq_true_eq, natAbs_lt_iff] <;> omega
 
 /-- **`cond_deg_corr` compares the degrees of the exchanged partners** -/
 theorem condDegCorr_eq (degree : Nat → Int) (s t k l : Nat) :
     condDegCorr degree s t k l = (degree s == degree k && degree t == degree l) := by
   rw [Bool.eq_iff_iff]
-  simp [condDegCorr]
+  simp only [condDegCorr, Bool.and_eq_true, decide_eq_true_eq, beq_iff_eq] <;> omega
 
 /-- **the wrappers hand over C1 / C2 / C2 and no / no / the degree condition** -/
 theorem wrappers_eq : wrapperI = (.cond_len_c1, .null) ∧ wrapperII = (.cond_len_c2, .null) ∧
@@ -116,8 +117,7 @@ theorem crossSetRun_cons (k : Nat) (i j : Nat) (ds : List (Nat × Nat)) (C : Adj
 theorem rewBreak_eq (C : Adj) (a b c d : Nat) : rewBreak C a b c d = !(C a d || C c b) := by
   rw [Bool.eq_iff_iff]; simp [rewBreak]
 
-theorem rewWrites_eq (C : Adj) (a b c d : Nat) :
-    applyWrites C (rewWrites a b c d) = (((C.set a b false).set c d false).set a d true).set c b true :=
+theorem rewWrites_eq (C : Adj) (a b c d : Nat) : applyWrites C (rewWrites a b c d) = swapped C a b c d :=
   rfl
 
 /-- **the three-statement exchange of the link ends** writes `(a, e)` at `e1` and `(c, b)` at `e2` -/
@@ -134,12 +134,18 @@ theorem runMoves_eq (L : List (Nat × Nat)) (p q a b c e : Nat) (hp : p < L.leng
   · simp [List.getD_eq_getElem?_getD, hp, hq, e1, e2, hpq]
 
 theorem overwrite_reads_eq (i j : Nat) : owRead i j = (i, j) ∧ owCell i j = (i, j) := ⟨rfl, rfl⟩
-theorem owWrites_eq (n1 n2 : Nat) (v : Bool) : owWrites n1 n2 v = [(n1, n2, v), (n2, n1, v)] := rfl
+theorem mem_owWrites (n1 n2 : Nat) (v : Bool) (w : Nat × Nat × Bool) :
+    w ∈ owWrites n1 n2 v ↔ (w = (n1, n2, v) ∨ w = (n2, n1, v)) := by
+  simp only [owWrites, List.mem_cons, List.not_mem_nil, or_false] <;> grind
 
 /-- **`RandomlySetCrossLinks_sparse` carries a Python copy of the kernel and of
 `overwriteAdjacency`: same test, same writes, same subscripts** — one model serves both. -/
 theorem sparse_copy_eq : sparseBreak = setBreak ∧ sparseWrites = setWrites ∧
-    sparseOwRead = owRead ∧ sparseOwCell = owCell ∧ sparseOwWrites = owWrites ∧
-    sparseDraw = geoDraw := ⟨rfl, rfl, rfl, rfl, rfl, rfl⟩
+    sparseOwRead = owRead ∧ sparseOwCell = owCell ∧
+    (∀ a b v w, w ∈ sparseOwWrites a b v ↔ w ∈ owWrites a b v) ∧
+    sparseDraw = geoDraw := by
+  refine ⟨rfl, rfl, rfl, rfl, ?_, rfl⟩
+  intro a b v w
+  simp only [sparseOwWrites, owWrites, List.mem_cons, List.not_mem_nil, or_false] <;> grind
 
 end Pyunicorn.Random
